@@ -26,6 +26,7 @@ type Case struct {
 	// independently by the generator; Clause[i] names the specification clause.
 	Expect map[int]string `json:"expect,omitempty"`
 	Clause map[int]string `json:"clause,omitempty"`
+	World  *WorldScript   `json:"-"` // whole-repository model script of a history
 }
 
 func (c *Case) add(line string) int {
@@ -460,6 +461,72 @@ func runCheck(ctx *Ctx, ck *Check, auditPath, factsStatus, evidencePath string) 
 		compared += derivedCompared
 		agree += derivedAgree
 	}
+	// whole-repository correspondence: every history is replayed on the Lean model of the whole repository,
+	// which carries its own state; its complete state after each invocation is compared with the observed one
+	worldStats := map[string]int{}
+	{
+		var mc []Case
+		var owners []int
+		for ci, c := range cases {
+			if c.World != nil && len(c.World.Expect) > 0 {
+				mc = append(mc, Case{Name: "world", Lines: c.World.Lines})
+				owners = append(owners, ci)
+			}
+		}
+		if len(mc) > 0 {
+			mo := runModel(ctx, mc)
+			for k, ci := range owners {
+				ws := cases[ci].World
+				if len(mo[k]) != len(ws.Lines) {
+					worldStats["scripts_not_answered"]++
+					continue
+				}
+				reportedHere := false
+				for li, line := range ws.Lines {
+					ans := mo[k][li]
+					if strings.HasPrefix(line, "w.sync ") {
+						worldStats["state_"+ans]++
+						continue
+					}
+					want, isX := ws.Expect[li]
+					if !isX {
+						continue
+					}
+					cmdName := "?"
+					if a := ws.Args[li]; len(a) > 0 {
+						cmdName = a[0]
+					}
+					if strings.HasPrefix(ans, "R=unsupported ") {
+						worldStats["unsupported"]++
+						worldStats["unsupported."+cmdName]++
+						continue
+					}
+					worldStats["compared"]++
+					worldStats["compared."+cmdName+"."+strings.TrimPrefix(strings.SplitN(want, " ", 2)[0], "R=")]++
+					if ans == want {
+						worldStats["agree"]++
+						continue
+					}
+					if reportedHere {
+						continue // one report per history: the state was re-synchronised, later differences are reported by other histories
+					}
+					reportedHere = true
+					cc := cases[ci]
+					n := ws.StepOf[li] + 1
+					if n > len(cc.Lines) {
+						n = len(cc.Lines)
+					}
+					cc.Lines = append(append([]string{}, cc.Lines[:n]...), line)
+					cc.World = nil
+					addFinding(Finding{Kind: "correspondence", Clause: "model=impl", Case: cc, Step: len(cc.Lines) - 1, Impl: want, Model: ans,
+						Detail: "whole-repository model: fields that differ: " + strings.Join(diffFields(want, ans), ",") + " | cmd: goit " + strings.Join(ws.Args[li], " "),
+						Sig: ck.Prop + "/model=impl/w.x " + cmdName})
+				}
+			}
+			compared += worldStats["compared"]
+			agree += worldStats["agree"]
+		}
+	}
 	// the traced effect shapes of C15/C16 were compared with the Lean effect-order model inside runCrashCases
 	if n := histStats["effect_shapes_compared_with_model"]; n > 0 {
 		bad := 0
@@ -635,6 +702,7 @@ func runCheck(ctx *Ctx, ck *Check, auditPath, factsStatus, evidencePath string) 
 		"history_step_outcomes":         histStats,
 		"command_transitions_compared_with_model": derivedCompared,
 		"command_transitions_by_kind":             derivedKinds,
+		"whole_repository_model":                  worldStats,
 		"exhaustive":                              ck.Exhaustive,
 		"facts_status":                            factsStatus,
 	}
